@@ -57,6 +57,8 @@ def ref_term(x):
         return x.term
     if isinstance(x, Opaque):
         return x.const
+    if isinstance(x, Obj):
+        return obj_ref(x)
     if x is None:
         return z3.Const("None!ref", RefS)
     raise Unsupported(f"object of type {type(x).__name__} used as a symbolic reference")
@@ -105,6 +107,51 @@ class SymMap:
         kt = ref_term(k)
         self.dom = z3.Store(self.dom, kt, True)
         self.val = z3.Store(self.val, kt, ref_term(v))
+
+
+class LoopMap:
+    """the state of a dict at the head of an ARBITRARY loop iteration: a symbolic base of arbitrary content (keys compared by
+    object identity) plus the concrete entries written during the iteration under verification (`written`, in order).  Reads
+    look at the entries written in this iteration first, then at the base; a key that is neither is a KeyError path."""
+
+    def __init__(self, name):
+        self.base = SymMap(name)
+        self.written = []          # [(key object, python value)]
+
+    def __vf_contains__(self, I, k):
+        for kk, _ in self.written:
+            if kk is k:
+                return True
+        return self.base.__vf_contains__(I, k)
+
+    def __vf_getitem__(self, I, k):
+        for kk, v in reversed(self.written):
+            if kk is k:
+                return v
+        return self.base.__vf_getitem__(I, k)
+
+    def __vf_setitem__(self, I, k, v):
+        self.written.append((k, v))
+
+    def __vf_getattr__(self, I, name):
+        if name == "get":
+            def get(k, default=None):
+                for kk, v in reversed(self.written):
+                    if kk is k:
+                        return v
+                if I.decide(self.base.__vf_contains__(I, k)):
+                    return RefVal(z3.Select(self.base.val, ref_term(k)))
+                return default
+            return BoundBuiltin(get)
+        raise Unsupported(f"dict.{name} on a loop-state map")
+
+
+_OBJ_REFS = {}
+
+
+def obj_ref(o):
+    """a Ref constant per heap object allocated on this path (distinct objects get distinct constants: stated by the caller)"""
+    return z3.Const(f"obj!{o.oid}", RefS)
 
 
 class CtxToken:
